@@ -99,9 +99,16 @@ func genEnvSets(rt *rapid.T, n int) [][]int {
 
 func TestC12(t *testing.T) {
 	st := StatsFor("C12")
+	FaithfulString = true
 	cfg := GenCfg{Depth: 3, Env: false, DD: true}
 	rapid.Check(t, func(rt *rapid.T) {
 		p := GenProgram(rt, cfg)
+		for i := range p.D.Opts {
+			// the valid environment value of a flag may be false: "given by the environment" all the same
+			if p.D.Opts[i].Bool && chance(rt, 1, 3, "falseenv") {
+				p.D.Opts[i].EnvVal = rapid.SampledFrom([]string{"false", "0", "F"}).Draw(rt, "falseenvval")
+			}
+		}
 		c := &MetaCase{Program: p}
 		// sample the sentence with a random subset marked env-backed so that env-backed options get omitted
 		hint := withEnv(p.D, genEnvSetsOne(rt, len(p.D.Opts)))
@@ -169,7 +176,7 @@ func TestC09Tail(t *testing.T) {
 			}
 		}
 		P := optsOnly(2)
-		kind := intn(rt, 4, "tkind")
+		kind := intn(rt, 5, "tkind")
 		T := tailPattern(kind)
 		// the spec-level -- is mandatory ("P -- T") or optional ("P [--] T"): in both cases it is what lets the tail's
 		// dash-prefixed tokens through
